@@ -32,6 +32,7 @@ META = {
 CLAUSES = ["Answered", "TypedError", "KeepsServing", "ProbeOwnAnswer", "PeerNotLeftWaiting"]
 INVS = ["Total", "FaultFreeSucceeds", "OnlyCleanSucceeds", "SingleFaultExact", "BlindOnlyWhenConsumed",
         "WorldOnlyWhereItMatters"]
+INVS.append("OnlyOrphanedInputSwallowed")
 WALK_INVS = ["TypeOK"] + ["Inv_" + x for x in INVS]
 T1, T2 = 4.0, 10.0
 
@@ -56,7 +57,7 @@ def _is_probe_answer(st: dict, x: int) -> bool:
 
 
 def exchange(lv: Live, req: bytes, script: str, x: int, ver: bool, timeout: float, with_probe: bool = True,
-             strict: bool = False) -> dict:
+             strict: bool = False, may_swallow: bool = False) -> dict:
     """Raw lock-step peer: one request (+ what a client would write for it) + probe; returns the observation.
     Normally the probe is written right behind the request (a pipelining peer); strict = the probe is written only
     after the reply to the request has arrived (or the server is gone), so that the server never closes a socket
@@ -80,10 +81,22 @@ def exchange(lv: Live, req: bytes, script: str, x: int, ver: bool, timeout: floa
     else:
         lv.send(req + probe)
     total = expect + (1 if with_probe else 0)
-    sts = lv.wait_streams(total, timeout, base)
+    swallowed = False
+    if may_swallow and with_probe:
+        # the table admits that this request is taken for a rejected call's orphaned input stream and gets no reply:
+        # then the first reply stream is already the probe's own answer
+        sts = lv.wait_streams(1, timeout, base)
+        if sts and _is_probe_answer(sts[0], x):
+            lv.wait_streams(2, 0.05, base)          # (nothing else must follow)
+            sts = lv.streams(base)
+            swallowed = len(sts) == 1
+    if not swallowed:
+        sts = lv.wait_streams(total, timeout, base)
     ncomplete = sum(1 for s in sts if s.get("complete"))
     first = _classify(sts[0] if sts else None)
-    if not with_probe:
+    if swallowed:
+        first, pr, ncomplete = "none", "own", total
+    elif not with_probe:
         pr = "none"
     elif len(sts) > expect and sts[expect].get("complete"):
         pr = "own" if _is_probe_answer(sts[expect], x) else "other"
@@ -95,25 +108,36 @@ def exchange(lv: Live, req: bytes, script: str, x: int, ver: bool, timeout: floa
     ended_now = lv.ended.is_set()
     err = world.error_of(sts[0]) if sts and sts[0].get("complete") else None
     return {"first": first, "probe": pr, "died": bool(lv.died), "ended": ended_now and not lv.died, "short": short,
-            "reset": lv.reset,
+            "reset": lv.reset, "swallowed": swallowed,
             "nstreams": len(sts), "expect": total, "died_with": (lv.died[0] if lv.died else None),
             "err_type": err.get("type") if err else None, "used": sum(len(s.get("raw", b"")) for s in sts[:total])}
 
 
 def clean(o: dict) -> bool:
-    return o["first"] in ("ok", "typed_error") and o["probe"] == "own" and not o["died"] and not o["ended"]
+    return ((o["first"] in ("ok", "typed_error") or o.get("swallowed")) and o["probe"] == "own"
+            and not o["died"] and not o["ended"])
 
 
 class Conns:
     """Connection pool of the harness: a live connection is reused for consecutive cases as long as every exchange on
     it was clean (which is itself the property: the connection stays usable), otherwise replaced."""
 
-    def __init__(self, servers: dict) -> None:
+    def __init__(self, servers: dict, segs=None) -> None:
         self.servers = servers
         self.live: dict = {}
         self.count: dict = {}
         self.leaked = 0
-        self.pairs = pairs()
+        self.pairs = dict(pairs())
+        from vgi_rpc.rpc import make_tcp_pair
+        from vgi_rpc.rpc._transport import ShmPipeTransport
+
+        self.pairs["tcp"] = make_tcp_pair
+
+        def shmpipe():
+            ct, st = self.pairs["pipe"]()
+            return ct, ShmPipeTransport(st, segs.static)       # the server owns a static segment
+
+        self.pairs["shmpipe"] = shmpipe
 
     def get(self, wn: str, tr: str, fresh: bool) -> tuple[Live, bool]:
         key = (wn, tr)
@@ -122,7 +146,7 @@ class Conns:
             self.drop(key)
             lv = None
         if lv is None:
-            lv = Live(self.servers[wn][0], self.pairs[tr], tr)
+            lv = Live(self.servers[wn][0], self.pairs[tr], "pipe" if tr == "shmpipe" else tr)
             self.live[key] = lv
             self.count[key] = 0
         reused = self.count[key] > 0
@@ -150,6 +174,8 @@ def failure_mode(o: dict) -> str:
         return "escaped:" + str(o["died_with"]).split(":")[0]
     if o["ended"]:
         return "ended-after-" + o["first"]
+    if o.get("swallowed"):
+        return "swallowed"
     if o["first"] in ("none", "incomplete"):
         return "no-answer"
     if o["probe"] != "own":
@@ -271,7 +297,7 @@ def run(ctx: Ctx) -> None:
 
     segs = R.Segments()
     servers = {wn: R.make_server(wn) for wn in ("ve", "Ve", "vE", "VE")}
-    conns = Conns(servers)
+    conns = Conns(servers, segs)
     obs: list[dict] = []
     try:
         _run_requests(ctx, cases, segs, servers, conns, obs)
@@ -311,13 +337,14 @@ def _sig(case: dict, exp_w: dict | None, o: dict, tr: str, wn: str) -> dict:
     if case["k"] == "bytes":
         return {"k": "bytes", "culprit": "bytes:" + case["seed"], "bytes_how": case["how"], "region": case["region"],
                 "how": failure_mode(o), "transport": tr, "world": wn}
-    return {"k": "req", "stage": exp_w["stage"], "trace": case["extra"] == "trace", "m": case["m"], "seg": case["seg"],
+    return {"k": "req", "hist": case["hist"], "stage": exp_w["stage"], "trace": case["extra"] == "trace", "m": case["m"],
+            "cols": case["cols"], "seg": case["seg"],
             "ptr": case["ptr"], "how": failure_mode(o), "transport": tr, "world": wn}
 
 
 def _tlc_obs(o: dict, wn: str, tr: str, valid: bool) -> dict:
     return {"world": wn, "transport": tr, "valid": valid, "first": o["first"], "died": o["died"], "ended": o["ended"],
-            "probe": o["probe"], "hung": bool(o.get("hung", False))}
+            "probe": o["probe"], "hung": bool(o.get("hung", False)), "swallowed": bool(o.get("swallowed", False))}
 
 
 def _after_eof(conns: Conns, key, o: dict) -> bool:
@@ -329,21 +356,23 @@ def _after_eof(conns: Conns, key, o: dict) -> bool:
 def _run_requests(ctx: Ctx, cases, segs, servers, conns: Conns, obs: list) -> None:
     quick = ctx.quick
     xs = ctx.rng.randrange(10_000, 900_000)
-    n = 0
+    n = prelude_failed = 0
     t0, c0 = time.monotonic(), time.process_time()
     for ci, cj in enumerate(cases):
         case, exp = cj["case"], cj["exp"]
         if case["k"] != "req":
             continue
         shm_case = case["seg"] != "none" or case["ptr"] != "none"
+        isolated = shm_case or case["hist"] != "fresh"      # needs a connection of its own (per-connection state)
         nfaults = cj["faults"]
         # number of concrete variants per class: most for the classes next to an ordinary request
-        if nfaults >= 3 and shm_case:       # (fresh connection per execution: the expensive ones)
-            plan = [("Ve", "unix" if ci % 3 == 0 else "pipe", ci % 12)]
+        if nfaults >= 3 and isolated:       # (fresh connection per execution: the expensive ones)
+            plan = [("Ve", ["pipe", "unix", "pipe", "tcp"][ci % 4], ci % 12)]
         elif nfaults >= 3 or (quick and nfaults == 2):
-            plan = [("Ve", "pipe", 0), ("Ve", "unix" if ci % 2 else "pipe", 1)]
+            plan = [("Ve", "pipe", 0), ("Ve", ["unix", "pipe", "tcp", "shmpipe"][ci % 4], 1)]
         else:
-            plan = [("Ve", "pipe", 0), ("Ve", "pipe", 1), ("Ve", "unix", 2), ("Ve", "pipe", 3)]
+            plan = [("Ve", "pipe", 0), ("Ve", "pipe", 1), ("Ve", "unix", 2), ("Ve", "pipe", 3), ("Ve", "tcp", 4),
+                    ("Ve", "shmpipe", 5)]
         if case["pv"] != "ok":
             plan.append(("ve", "pipe", 4))
         if case["loc"] != "absent":
@@ -354,27 +383,47 @@ def _run_requests(ctx: Ctx, cases, segs, servers, conns: Conns, obs: list) -> No
             script = exp[wn]["script"]
             if script == "na":
                 continue
+            if tr == "shmpipe" and case["m"] == "stream_nohdr" and case["ptr"] != "none":
+                continue        # (pointers resolve against the server's own segment there: the blind script is undefined)
             v = v + 13 * (ci % 7)
             n += 1
             x = xs + n
-            segs.good.reset()
-            conc = R.concretise(case, v, segs, ctx.rng)
-            lv, reused = conns.get(wn, tr, fresh=shm_case)
-            o = exchange(lv, conc["bytes"], script, x, wn[0] == "V", T1)
+            ver = wn[0] == "V"
+            swal = exp[wn]["may_swallow"]
+
+            def attempt(fresh: bool, timeout: float, strict: bool):
+                segs.prepare(v)
+                conc_ = R.concretise(case, v, segs, ctx.rng, static=(tr == "shmpipe"))
+                lv_, reused_ = conns.get(wn, tr, fresh=fresh)
+                for data, nrep in R.preludes(case["hist"], v, segs, ver):
+                    base = lv_.consumed()
+                    lv_.send(data)
+                    got = lv_.wait_streams(nrep, timeout, base)
+                    if sum(1 for s_ in got if s_.get("complete")) < nrep:
+                        return None, conc_, reused_          # the history itself failed: judged where it is the case
+                o_ = exchange(lv_, conc_["bytes"], script, x, ver, timeout, strict=strict, may_swallow=swal)
+                return o_, conc_, reused_
+
+            o, conc, reused = attempt(isolated, T1, False)
+            if o is None:
+                conns.drop((wn, tr))
+                prelude_failed += 1
+                n -= 1
+                continue
             o["hung"] = False
             if not clean(o):
                 o["hung"] = _after_eof(conns, (wn, tr), o)
                 if reused or (o["short"] and not o["died"]):
                     # attribute / confirm it: the same request alone on a fresh connection, generous watchdog, strict
                     # lock-step (an exception that escaped serve on a fresh connection needs no confirmation)
-                    segs.good.reset()
-                    conc = R.concretise(case, v, segs, ctx.rng)
-                    lv2, _ = conns.get(wn, tr, fresh=True)
-                    o2 = exchange(lv2, conc["bytes"], script, x, wn[0] == "V", T2, strict=True)
-                    o2["hung"] = _after_eof(conns, (wn, tr), o2)
-                    if not (reused and clean(o2)):
-                        o = o2
-                        reused = False
+                    o2, conc, _ = attempt(True, T2, True)
+                    if o2 is not None:
+                        o2["hung"] = _after_eof(conns, (wn, tr), o2)
+                        if not (reused and clean(o2)):
+                            o = o2
+                            reused = False
+            elif isolated:
+                conns.drop((wn, tr))
             key = [conc["bytes"].hex() if len(conc["bytes"]) < 4096 else hash(conc["bytes"]), wn, tr]
             ctx.case(key)
             detail = {"case": case, "variant": v, "method": repr(conc["method"]), "metadata": {repr(a): repr(b)[:80] for a, b in conc["md"].items()},
@@ -387,13 +436,14 @@ def _run_requests(ctx: Ctx, cases, segs, servers, conns: Conns, obs: list) -> No
                 ctx.sample({"class": case, "world": wn, "transport": tr, "concrete_method": repr(conc["method"]),
                             "metadata_keys": [repr(a) for a in conc["md"]], "schema": detail["schema"],
                             "table_stage": exp[wn]["stage"], "observed": _tlc_obs(o, wn, tr, True)})
+    ctx.extra["prelude_failed"] = prelude_failed
     ctx.extra["request_executions"] = {"n": n, "wall_s": round(time.monotonic() - t0, 1),
                                        "cpu_s": round(time.process_time() - c0, 1)}
 
 
 def _run_bytes(ctx: Ctx, cases, segs, conns: Conns, obs: list) -> None:
     quick = ctx.quick
-    segs.good.reset()
+    segs.prepare(0)
     sd, (off, ln) = seeds(segs)
     xs = ctx.rng.randrange(1_000_000, 2_000_000)
     n = valid_n = 0
